@@ -24,6 +24,8 @@ BOUND = {
     "quick": "rich forms + catalogue x 2 decorations + L(4,3) layouts with container logic + C01 layouts L(4,3) x 3 rotations + translation grid subsets <=2 (core) x 2 default languages",
     "thorough": "same with L(5,3) and grid subsets <=3 (core)",
 }
+# as-built additions to the bound (kept next to BOUND so that the evidence reports them)
+BOUND = {k: v + "; plus: " + 'legacy question types with overridden defaults, OSM with choice lists, 25 field-like extra choice column names (alone, filtered, pairs), add_none_option (open finding)' for k, v in BOUND.items()}
 
 EXTRA = [
     {"survey": [{"type": "begin group", "name": "g", "label": "G", "relevant": "${q} = 1", "read_only": "yes", "appearance": "field-list"},
